@@ -32,7 +32,7 @@ package paillier
 //@   nopanic[C05]
 //@   modifies nothing
 //@   allocates
-//@   ensures[C15,C12] result == nil ==> (n != nil && nbits(natval(n)) == 2048)
+//@   ensures[C15,C12] result == nil ==> (n != nil && nbits(natval(n)) == 2048 && natval(n) >= 0)
 
 //@ func ValidatePrime
 //@   nopanic[C05]
